@@ -63,7 +63,8 @@ def run (inp obs : List String) : Verdict :=
   let second := (obs.dropWhile (· ≠ "|")).drop 1
   let ver := (field inp "v").getD "t"
   let l1 := (field first "l1").getD "?"
-  let baseTags := [kind, "ufo-v" ++ ver]
+  let baseTags := [kind, "ufo-v" ++ ver, "target-" ++ (field inp "t").getD "absent"] ++
+    (if kind = "edit" then ["edited-after-load"] else [])
   if l1 = "panic" then { agree := false, spec := ["load-panic"], tags := baseTags, model := "-" }
   else if l1 ≠ "ok" then
     -- not accepted: outside the property (testdata holds deliberately broken trees; generated trees must load)
